@@ -100,6 +100,23 @@ func genOps(stream string, full bool, ops []string) []GenCase {
 			}
 		}
 	}
+	// ** with integral exponents of both signs, integer and float bases: math.Pow's successive-squaring loop
+	// (results beyond 2^53 are rounded the way that loop rounds them; negative exponents give 1/x^n)
+	if len(ops) > 2 {
+		for _, base := range []string{"2", "-2", "3", "-3", "7", "10", "-10", "1.5", "-2.5", "0.1", "10000000000.0", "0.00001", "65535", "1.0000001"} {
+			for e := -70; e <= 70; e++ {
+				if e%7 != 0 && e%5 != 0 && (e > 24 || e < -24) {
+					continue
+				}
+				for _, es := range []string{fmt.Sprint(e), fmt.Sprintf("%d.0", e)} {
+					c := Case{ID: fmt.Sprintf("%s-pow-%d", stream, id), Opt: id%2 == 0, Script: fmt.Sprintf("b = %s; e = %s; return [b ** e, %s ** %s];", base, es, base, es),
+						Tags: []string{"op:**", "pow-sweep"}, Runs: []Run{{Obj: HV{Kind: "nil"}, Polls: defaultPolls}}, Show: []string{"spec"}}
+					id++
+					out = append(out, GenCase{Case: c, Stream: stream, NonTrivial: true})
+				}
+			}
+		}
+	}
 	// unary operators and index
 	for _, a := range pool {
 		for _, u := range []string{"-", "!", "√"} {
